@@ -80,6 +80,11 @@ func genBucketing(t *rapid.T) Case {
 		if a > b {
 			a, b = b, a
 		}
+		reversed := a < b && rapid.IntRange(0, 7).Draw(t, "reversedBounds") == 0
+		if reversed {
+			// min > max: no value lies between them, so the value itself is never the answer
+			a, b = b, a
+		}
 		var v int64
 		switch rapid.IntRange(0, 6).Draw(t, "vclass") {
 		case 0:
@@ -100,6 +105,8 @@ func genBucketing(t *rapid.T) Case {
 			// strictly inside when possible
 			if a < b {
 				v = rapid.Int64Range(a, b).Draw(t, "inside")
+			} else if a > b {
+				v = rapid.Int64Range(b, a).Draw(t, "between-reversed")
 			} else {
 				v = a
 			}
@@ -249,12 +256,21 @@ func checkBucketing(c Case) error {
 		}
 		lo, ok1 := canonInt(v[1])
 		hi, ok2 := canonInt(v[2])
-		if !ok1 || !ok2 || lo > hi {
+		if !ok1 || !ok2 {
 			return nil
 		}
 		r, err := evalClean(c)
 		if err != nil {
 			return err
+		}
+		if lo > hi {
+			// "returns v iff min <= v <= max": with min > max that never holds, so the answer is one of the
+			// two words (which of them is not asserted)
+			c.Obs.Label(true, "min>max")
+			if r.out != "min" && r.out != "max" {
+				return fail(c, r, "min > max: no value is within the bounds, want min or max")
+			}
+			return nil
 		}
 		c.Obs.Label(val == lo, "at-min")
 		c.Obs.Label(val == hi, "at-max")
